@@ -49,6 +49,16 @@ def gen(rng, tier):
             for b in rng_b:
                 for c in rng_s:
                     yield {"segs": [["list", ["slice", a, b, c]]], "doc": arr, "seed": 2}
+    # member names with characters that are legal unescaped in a quoted name (everything from U+0020 on, except the quote and
+    # the backslash) although they are "not printable": DEL, C1 controls, no-break / line / paragraph separators, format
+    # characters (soft hyphen, zero-width joiner), private use, unassigned
+    odd = ["prix\u00a0ttc", "a\x7fb", "l\u2028s", "p\u2029", "\U0001F468\u200d\U0001F469", "soft\u00adhy", "\ue000pua", "\x85", "\u0378", "\ufeffbom", "\u3000", "tab\there"]
+    odoc = {n: i for i, n in enumerate(odd)}
+    odoc["in"] = {n: [i] for i, n in enumerate(odd[:4])}
+    for n in odd:
+        for segs in ([["list", ["name", n]]], ["desc", ["list", ["name", n]]], [["list", ["name", "in"]], ["list", ["name", n], ["name", "a"]]]):
+            for seed in (1, 2, 3):
+                yield {"segs": segs, "doc": odoc, "seed": seed}
     # queries that differ only by blank space INSIDE a quoted member name, one after the other in the same process
     bdoc = {"a b": 1, "ab": 2, " b": 3, "b": 4, "k 1": 5, "k1": 6, "a": {" b": 7, "b": 8, "b ": 9}, "": 0, " ": 10}
     for names in (["a b"], ["ab"], [" b"], ["b"], ["k 1"], ["k1"], [" "], [""], ["b", " b"], [" b", "b"], ["k1", "k 1"], ["a b", "ab", "b"]):
